@@ -135,9 +135,12 @@ Section Partial.
               let m :=
                 if kind_eqb (kind_of node) KMarkup then call bundle (RMarkup c ScDocument)
                 else if is_expr node then
-                  (* a child of Markup or Math is converted as the markup and math loops do *)
+                  (* a child of Markup or Math is converted as the markup and math loops do; so is the hashed operand
+                     of an attachment, fraction or root (the cover search reports code mode exactly after a hash) *)
                   match parent with
                   | Some KMarkup | Some KMath => call bundle (RExprEmb c)
+                  | Some KMathAttach | Some KMathFrac | Some KMathRoot =>
+                      if is_code_mode mode then call bundle (RExprEmb c) else call bundle (RExpr c)
                   | _ => call bundle (RExpr c)
                   end
                 else call bundle (RPattern c) in
